@@ -7,6 +7,19 @@ from ..citations import MASLOV2002, SPORNS2004, RUBINOV2011
 from ..due import BibTeX, due
 
 
+
+def _has_rewirable_pair(i, j):
+    '''
+    True iff two of the listed connections (i[e], j[e]) have four distinct
+    end nodes, i.e. iff the edge-pair draw of the rewiring loops can succeed.
+    '''
+    for e in range(len(i)):
+        a, b = i[e], j[e]
+        if np.any((i != a) & (i != b) & (j != a) & (j != b)):
+            return True
+    return False
+
+
 @due.dcite(BibTeX(MASLOV2002), description="Latticize directed connected network")
 @due.dcite(BibTeX(SPORNS2004), description="Latticize directed connected network")
 def latmio_dir_connected(R, itr, D=None, seed=None):
@@ -63,6 +76,9 @@ def latmio_dir_connected(R, itr, D=None, seed=None):
     i, j = np.where(R)
     k = len(i)
     itr *= k
+    if itr > 0 and not _has_rewirable_pair(i, j):
+        raise BCTParamError('No two connections on four distinct nodes: '
+                            'nothing can be rewired')
 
     # maximal number of rewiring attempts per iteration
     max_attempts = np.round(n * k / (n * (n - 1)))
@@ -186,6 +202,9 @@ def latmio_dir(R, itr, D=None, seed=None):
     i, j = np.where(R)
     k = len(i)
     itr *= k
+    if itr > 0 and not _has_rewirable_pair(i, j):
+        raise BCTParamError('No two connections on four distinct nodes: '
+                            'nothing can be rewired')
 
     # maximal number of rewiring attempts per iteration
     max_attempts = np.round(n * k / (n * (n - 1)))
@@ -292,6 +311,9 @@ def latmio_und_connected(R, itr, D=None, seed=None):
     i, j = np.where(np.tril(R))
     k = len(i)
     itr *= k
+    if itr > 0 and not _has_rewirable_pair(i, j):
+        raise BCTParamError('No two connections on four distinct nodes: '
+                            'nothing can be rewired')
 
     # maximal number of rewiring attempts per iteration
     max_attempts = np.round(n * k / (n * (n - 1) / 2))
@@ -422,6 +444,9 @@ def latmio_und(R, itr, D=None, seed=None):
     i, j = np.where(np.tril(R))
     k = len(i)
     itr *= k
+    if itr > 0 and not _has_rewirable_pair(i, j):
+        raise BCTParamError('No two connections on four distinct nodes: '
+                            'nothing can be rewired')
 
     # maximal number of rewiring attempts per iteration
     max_attempts = np.round(n * k / (n * (n - 1) / 2))
@@ -1156,6 +1181,9 @@ def randmio_dir_connected(R, itr, seed=None):
     i, j = np.where(R)
     k = len(i)
     itr *= k
+    if itr > 0 and not _has_rewirable_pair(i, j):
+        raise BCTParamError('No two connections on four distinct nodes: '
+                            'nothing can be rewired')
 
     max_attempts = np.round(n * k / (n * (n - 1)))
     eff = 0
@@ -1248,6 +1276,9 @@ def randmio_dir(R, itr, seed=None):
     i, j = np.where(R)
     k = len(i)
     itr *= k
+    if itr > 0 and not _has_rewirable_pair(i, j):
+        raise BCTParamError('No two connections on four distinct nodes: '
+                            'nothing can be rewired')
 
     max_attempts = np.round(n * k / (n * (n - 1)))
     eff = 0
@@ -1330,6 +1361,9 @@ def randmio_und_connected(R, itr, seed=None):
     i, j = np.where(np.tril(R))
     k = len(i)
     itr *= k
+    if itr > 0 and not _has_rewirable_pair(i, j):
+        raise BCTParamError('No two connections on four distinct nodes: '
+                            'nothing can be rewired')
 
     # maximum number of rewiring attempts per iteration
     max_attempts = np.round(n * k / (n * (n - 1)))
@@ -1516,6 +1550,9 @@ def randmio_und(R, itr, seed=None):
     i, j = np.where(np.tril(R))
     k = len(i)
     itr *= k
+    if itr > 0 and not _has_rewirable_pair(i, j):
+        raise BCTParamError('No two connections on four distinct nodes: '
+                            'nothing can be rewired')
 
     # maximum number of rewiring attempts per iteration
     max_attempts = np.round(n * k / (n * (n - 1)))
@@ -1670,6 +1707,9 @@ def randomize_graph_partial_und(A, B, maxswap, seed=None):
     i.setflags(write=True)
     j.setflags(write=True)
     m = len(i)
+    if maxswap > 0 and not _has_rewirable_pair(i, j):
+        raise BCTParamError('No two connections on four distinct nodes: '
+                            'nothing can be rewired')
 
     nswap = 0
     while nswap < maxswap:
